@@ -30,6 +30,9 @@ pub fn families() -> Vec<&'static dyn Family> {
         &nsim::reqrep_e2e::REQREP_E2E,
         &nsim::reconnect::RECONNECT,
         &nsim::reconnect::BACKOFF_TIMING,
+        &nsim::names::NAMES,
+        &nsim::mtls::MTLS,
+        &nsim::stall::STALL,
     ]
 }
 
@@ -115,6 +118,15 @@ pub fn plan(property: &str) -> Option<CheckPlan> {
             stubbed: R_STUB.to_vec(),
             items: vec![PlanItem { family: &rsim::reqrep::RR_REPLIERS, quick: 150_000, thorough: 4_000_000 }],
         }),
+        "C15" => Some(CheckPlan {
+            property: "C15",
+            level: "fault_enumeration",
+            rule: "run i executes identity pairing (i mod 8) of client {CA-issued, issued by another CA, self-signed, none} x server {CA-issued, issued by another CA}; keys are freshly generated per run by the bundled generator (twice, for the two CAs) from the run's entropy stream; the handshake runs under a seeded loss/duplication/reordering schedule; the refused peer is the library client or a raw quinn client; distinct = distinct script bodies",
+            assumptions: vec!["success (connect + first registration + one delivered message) is expected iff both sides are CA-issued; for the trusted pairing it is demanded only on a loss-free network", "a refusal may surface at connect() or at the first registration (TLS 1.3 validates the client certificate after the client has finished)"],
+            real: N_REAL.to_vec(),
+            stubbed: N_STUB.to_vec(),
+            items: vec![PlanItem { family: &nsim::mtls::MTLS, quick: 200, thorough: 16_000 }],
+        }),
         "C16" => Some(CheckPlan {
             property: "C16",
             level: "exploration",
@@ -189,6 +201,15 @@ pub fn plan(property: &str) -> Option<CheckPlan> {
             stubbed: N_STUB.to_vec(),
             items: vec![PlanItem { family: &nsim::reqrep_e2e::REQREP_E2E, quick: 500, thorough: 30_000 }],
         }),
+        "C07" => Some(CheckPlan {
+            property: "C07",
+            level: "exploration",
+            rule: "20-40 generated names per run around the boundaries (component lengths 0..3, 63..66, 300; characters in and outside [A-Za-z0-9_-]; '/' missing, doubled, trailing; non-ASCII first/middle/last characters; the reserved word as prefix, exact, inside, in the topic, capitalised), each presented to a raw peer registering in all four roles with an unchecked name, to the library builders inside a task, and to TopicName::try_from/create/Display; plus pairs of similar valid names used concurrently for pub/sub and request/reply; non-trivial = >= 2 names; distinct = distinct script bodies",
+            assumptions: vec!["the accept/reject verdict is asserted for all-ASCII input only; for input with non-ASCII characters only: no panic, an answer to every registration, library and parser agree, accepted names round-trip"],
+            real: N_REAL.to_vec(),
+            stubbed: N_STUB.to_vec(),
+            items: vec![PlanItem { family: &nsim::names::NAMES, quick: 400, thorough: 20_000 }],
+        }),
         "C12" => Some(CheckPlan {
             property: "C12",
             level: "fault_enumeration",
@@ -220,6 +241,15 @@ pub fn plan(property: &str) -> Option<CheckPlan> {
             stubbed: N_STUB.to_vec(),
             items: vec![PlanItem { family: &nsim::e2e::E2E_C14, quick: 200, thorough: 6_000 }, PlanItem { family: &nsim::hostile::INVALID_PAYLOADS, quick: 150, thorough: 5_000 }],
         }),
+        "C17" => Some(CheckPlan {
+            property: "C17",
+            level: "exploration",
+            rule: "a raw subscriber with shrunken receive windows stops reading on topic A while a library publisher keeps publishing until the router blocks (server send window shrunk to 32-128 KiB so this takes kilobytes); 0-200 further registrations (subscribers or publishers, from 2-4 raw connections, before and after the stall, in particular more than the 100+1 the registration queue holds) are sent to A; then two library clients connect and exchange one message on topic B; non-trivial = the stall materialised; distinct = distinct script bodies",
+            assumptions: vec!["topic B's round trip (two fresh connections, subscriber + publisher open, one message) must complete within 10 virtual seconds of the probe's start", "runs in which the publisher on A never blocked are inconclusive"],
+            real: N_REAL.to_vec(),
+            stubbed: N_STUB.to_vec(),
+            items: vec![PlanItem { family: &nsim::stall::STALL, quick: 60, thorough: 2_000 }],
+        }),
         "SMOKE" => Some(CheckPlan {
             property: "SMOKE",
             level: "exploration",
@@ -234,5 +264,5 @@ pub fn plan(property: &str) -> Option<CheckPlan> {
 }
 
 pub fn properties() -> Vec<&'static str> {
-    vec!["C01", "C02", "C03", "C04", "C05", "C06", "C08", "C09", "C10", "C11", "C12", "C13", "C14", "C16"]
+    vec!["C01", "C02", "C03", "C04", "C05", "C06", "C07", "C08", "C09", "C10", "C11", "C12", "C13", "C14", "C15", "C16", "C17"]
 }
